@@ -130,8 +130,8 @@ Proof.
   - cbn [L]. destruct (sat p a) eqn:E; cbn [L].
     + split.
       * intros ->. exists a. auto.
-      * intros (b & [= <- <-] & _). reflexivity.
-    + split; [tauto|]. intros (b & [= <- <-] & H). congruence.
+      * intros (b & E0 & _). now injection E0.
+    + split; [tauto|]. intros (b & E0 & H). injection E0 as Ea Ew. subst. congruence.
   - (* Cat *)
     assert (Hd : L (mk_cat (deriv a r1) r2) w <->
                  exists u v, w = u ++ v /\ L r1 (a :: u) /\ L r2 v).
